@@ -1,6 +1,7 @@
 // C10 – numeric accessors and mutators are exact when representable, else saturating.
 // Reference evaluated in __int128 / exact bit arithmetic from the header documentation.
 #include "common.hpp"
+#include "textgen.hpp"
 #include "val.hpp"
 #include <cerrno>
 #include <cmath>
@@ -503,6 +504,26 @@ static std::string gen_numeric_string(Choices &c)
 		break;
 	}
 	case 2: { // fraction / exponent
+		if (c.coin(45))
+		{
+			// long decimal texts: what a hand-written conversion gets wrong first (the TextGen number shapes: up to
+			// 40 significant digits, %.17g texts of arbitrary doubles, exact rounding midpoints and their neighbours)
+			TextGenOpts o;
+			o.big_numbers = true;
+			TextGen g(c, o);
+			for (int tries = 0; tries < 8; tries++)
+			{
+				g.out.clear();
+				g.number();
+				if (g.out.find_first_of(".eE") != std::string::npos)
+					break;
+			}
+			std::string t = g.out;
+			if (!t.empty() && t[0] == '-')
+				t.erase(0, 1);
+			s += t;
+			break;
+		}
 		size_t n = c.pickn(4);
 		for (size_t i = 0; i < n; i++)
 			s += (char)('0' + c.range(0, 9));
